@@ -93,3 +93,54 @@ func VsymC10_BigTagSize() {
 		vsym_Reach("err")
 	}
 }
+
+// vsymChunkReader delivers data in chunks of at most `chunk` bytes, then io.EOF.
+type vsymChunkReader struct {
+	data  []byte
+	pos   int
+	chunk int
+}
+
+func (r *vsymChunkReader) Read(p []byte) (int, error) {
+	if r.pos >= len(r.data) {
+		return 0, vsymEOF()
+	}
+	n := len(p)
+	if n > r.chunk {
+		n = r.chunk
+	}
+	if n > len(r.data)-r.pos {
+		n = len(r.data) - r.pos
+	}
+	copy(p, r.data[r.pos:r.pos+n])
+	r.pos += n
+	return n, nil
+}
+
+// VsymC10_ReadFrame: ReadFrame over a connection that delivers `avail` arbitrary bytes (in
+// chunks) and then closes. A frame is returned iff the size prefix and the whole payload
+// arrived; its payload is exactly the bytes received, and exactly 4+length bytes are consumed
+// (the next frame starts where this one ended). Frame lengths above 8 are outside the bound.
+func VsymC10_ReadFrame() {
+	avail := vsym_Param("avail")
+	chunk := vsym_Param("chunk")
+	data := vsym_Bytes("stream", avail)
+	var length int32 = -1
+	if avail >= 4 {
+		length = int32(uint32(data[0])<<24 | uint32(data[1])<<16 | uint32(data[2])<<8 | uint32(data[3]))
+		vsym_Assume(length <= 8)
+	}
+	r := &vsymChunkReader{data: data, chunk: chunk}
+	f, err := ReadFrame(r)
+	complete := avail >= 4 && length >= 0 && int(length) <= avail-4
+	if err == nil {
+		vsym_Reach("frame")
+		vsym_Assert(complete, "C10/frame-only-when-fully-received")
+		vsym_Assert(f != nil && f.Length == length && len(f.Payload) == int(length), "C10/frame-length")
+		vsym_Assert(vsym_BytesEq(f.Payload, data[4:4+int(length)]), "C10/frame-payload-is-bytes-received")
+		vsym_Assert(r.pos == 4+int(length), "C10/frame-consumes-exactly-its-bytes")
+	} else {
+		vsym_Reach("error")
+		vsym_Assert(!complete, "C10/complete-frame-accepted")
+	}
+}
